@@ -83,7 +83,7 @@ PROPS = {
  "C20": dict(cfgs=quick8, consteval="focus",
    scope=lambda t: "angle_to_radians for every value of the 8/16-bit types, every value of int32/uint32 (2 configurations quick / all thorough), S-shaped 64-bit values; sin/cos/tan_angle for every integer d in [-360,360] x 10 argument types",
    assumptions=COMMON_ASSUMPTIONS + ["d = +-90, +-270 are true poles of tan and are excluded from the tan_angle accuracy clause"]),
- "C07": dict(cfgs=none, san=san_quick, probes=probes2, consteval="ub", asan=True,
+ "C07": dict(cfgs=none, san=san_quick, probes=probes2, consteval="ub", asan=True, tsan=True,
    scope=lambda t: "every public entry point x its argument space extended by +-NaN and the extreme finite values, executed in UBSan-instrumented builds (own handlers: one callback per event) of both compilers under a trap guard; table index of ALL 2^32 angles through the index probe; dense shift counts; every float pattern (thorough)",
    assumptions=COMMON_ASSUMPTIONS + ["UB is observed through -fsanitize=undefined,float-cast-overflow (incl. bounds on std::array) and hardware traps; UB kinds these do not instrument (e.g. strict aliasing) are not observed",
       "raw INT64_MIN is neither finite nor NaN and is outside the property's domain; shift counts above 63 likewise"]),
